@@ -2751,7 +2751,8 @@ class PGPKeyring(collections_abc.Container, collections_abc.Iterable, collection
 
         # this is an alias that already exists, but points to a key that is not already referenced by it
         else:
-            adepth = len(self._aliases) - len([None for m in self._aliases if alias in m]) - 1
+            # find a level that does not have this alias yet
+            adepth = next((d for d, m in enumerate(self._aliases) if alias not in m), -1)
             # all alias maps have this alias, so increase total depth by 1
             if adepth == -1:
                 self._aliases.appendleft({})
